@@ -81,6 +81,37 @@ def ntext(n):
     return re.sub(r"\s+", "", text(n))
 
 
+def text_spelled(n):
+    """source text of a node, preferring spelling locations (the tokens of a macro *argument* are spelled at the call site, while the
+    expansion location of everything inside a macro is the whole macro invocation)"""
+    r = n.get("range")
+    if not r:
+        return ""
+
+    def sp(loc):
+        if "spellingLoc" in loc:
+            return loc["spellingLoc"]
+        return _bare(loc)
+    b, e = sp(r["begin"]), sp(r["end"])
+    f = b.get("file")
+    if not f or f != e.get("file") or "offset" not in b or "offset" not in e:
+        return text(n)
+    try:
+        src = fe.source(f)
+    except OSError:
+        return ""
+    return src[b["offset"]: e["offset"] + e.get("tokLen", 0)].decode("utf8", "replace")
+
+
+def unresolved_member_name(n):
+    t = re.sub(r"\s+", "", text_spelled(n))
+    m = re.search(r"(?:\.|->)(?:template)?(~?\w+)(?:<.*>)?$", t)
+    if m:
+        return m.group(1)
+    m = re.match(r"^(\w+)(?:<.*>)?$", t)
+    return m.group(1) if m else (t or None)
+
+
 # ------------------------------------------------------------------------------------------
 # declaration index
 # ------------------------------------------------------------------------------------------
@@ -328,7 +359,9 @@ def to_expr(n, rich=False):
         base = to_expr(ks[0], rich) if ks else ("this",)
         return ("member", base, n.get("member") or n.get("name"), targs_text(n))
     if k == "UnresolvedMemberExpr":
-        return ("member", ("this",), n.get("name") or ntext(n), None)
+        cks = [c for c in ks if c.get("kind")]
+        base = to_expr(cks[0], rich) if cks and strip(cks[0]).get("kind") != "CXXThisExpr" else ("this",)
+        return ("member", base, n.get("name") or unresolved_member_name(n), None)
     if k in ("CallExpr", "CXXMemberCallExpr"):
         cal = strip(ks[0])
         args = [to_expr(c, rich) for c in ks[1:] if c.get("kind") != "CXXDefaultArgExpr"]
@@ -340,7 +373,9 @@ def to_expr(n, rich=False):
         if ck == "LambdaExpr":
             return ("call", ("lambda", cal), args)
         if ck == "UnresolvedMemberExpr":
-            return ("mcall", ("this",), cal.get("name") or ntext(cal), None, args)
+            cks = [c for c in kids(cal) if c.get("kind")]
+            base = to_expr(cks[0], rich) if cks and not cks[0].get("implicit") and strip(cks[0]).get("kind") != "CXXThisExpr" else ("this",)
+            return ("mcall", base, cal.get("name") or unresolved_member_name(cal), None, args)
         return ("call", callee_name(cal, rich), args)
     if k == "CXXOperatorCallExpr":
         cal = strip(ks[0])
